@@ -1182,3 +1182,15 @@ func specDirectWriteOK(from ast.Format, ctx ast.Context) bool {
 //@   opt stable github.com/open2b/scriggo/internal/runtime.Function
 //@   panics allowed
 //@   callassert[C20] newBuilder 0 initVarsFn != nil && initVarsFn.Pos != nil
+
+// ---------------------------------------------------------------------------
+// path.go (C04): import paths come from the source; cleaning one must not
+// panic whatever the path is (no precondition: validatePackagePath only
+// filters with ValidTemplatePath, which accepts elements such as "..b").
+// ---------------------------------------------------------------------------
+
+//@ func cleanPath
+//@   props C04
+//@   loop 0
+//@     invariant 0 <= i
+//@     decreases 2*len(b) - i
